@@ -20,6 +20,7 @@ use vx_tools::proc::{self, Out, Proc};
 use vx_tools::tree;
 
 const CT: &str = "1.2.840.10008.5.1.4.1.1.2";
+const MR: &str = "1.2.840.10008.5.1.4.1.1.4";
 const IO_LIMIT: Duration = Duration::from_secs(20);
 
 // ---- transfer syntaxes -----------------------------------------------------------------------------
@@ -53,8 +54,8 @@ fn seq(tag: (u16, u16), explicit: bool, items: Vec<(bool, Vec<RElem>)>) -> RElem
 const DS_NAMES: [&str; 6] = ["min", "native-pixels", "seq-explicit", "seq-undefined-private", "nested-odd", "fragments"];
 
 /// Six small data sets that carry SOP Class and SOP Instance UID (the latter with the given bytes).
-fn data_set(k: usize, inst: &[u8], ts: &TsKind) -> Vec<RElem> {
-    let mut d = vec![ui((0x0008, 0x0016), CT.as_bytes()), ui((0x0008, 0x0018), inst)];
+fn data_set(k: usize, class: &str, inst: &[u8], ts: &TsKind) -> Vec<RElem> {
+    let mut d = vec![ui((0x0008, 0x0016), class.as_bytes()), ui((0x0008, 0x0018), inst)];
     let pix = |bytes: &[u8], frags: Vec<Vec<u8>>| {
         if ts.encapsulated {
             RElem { tag: (0x7FE0, 0x0010), vr: *b"OB", val: RVal::Pix { offsets: vec![], frags } }
@@ -163,6 +164,8 @@ struct Store {
     /// extra empty PDVs: 1 = empty non-last PDV first, 2 = all data non-last then an empty last PDV
     empty_pdv: u8,
     packing: Packing,
+    /// index into the case's proposed presentation contexts (context id = 2 * index + 1)
+    ctx: usize,
 }
 
 #[derive(Clone, Debug)]
@@ -170,7 +173,8 @@ struct Case {
     id: String,
     family: &'static str,
     mode: usize,
-    ts: TsKind,
+    /// proposed presentation contexts in proposal order: (abstract syntax, its single transfer syntax)
+    pcs: Vec<(&'static str, TsKind)>,
     stores: Vec<Store>,
 }
 
@@ -191,8 +195,8 @@ fn build_cases(check: &Check, tss: &[TsKind], abs_marker: &str) -> Vec<Case> {
                         id: format!("uid/{mname}/{}/{}/{shown}", ts.name, if same { "same" } else { "other" }),
                         family: "uid",
                         mode,
-                        ts: *ts,
-                        stores: vec![Store { cmd_uid: w.clone(), ds_uid: if same { w.clone() } else { "9.8.7".into() }, ds: 0, cuts: vec![], empty_pdv: 0, packing: Packing::OnePduPerPdv }],
+                        pcs: vec![(CT, *ts)],
+                        stores: vec![Store { cmd_uid: w.clone(), ds_uid: if same { w.clone() } else { "9.8.7".into() }, ds: 0, cuts: vec![], empty_pdv: 0, packing: Packing::OnePduPerPdv, ctx: 0 }],
                     });
                 }
             }
@@ -206,7 +210,7 @@ fn build_cases(check: &Check, tss: &[TsKind], abs_marker: &str) -> Vec<Case> {
             for k in 0..nds {
                 let k = if quick { 3 } else { k };
                 let uid = format!("1.2.3.{k}");
-                let len = wire_bytes(ts, &data_set(k, uid.as_bytes(), ts)).len();
+                let len = wire_bytes(ts, &data_set(k, CT, uid.as_bytes(), ts)).len();
                 for packing in [Packing::OnePduPerPdv, Packing::AllInOnePdu] {
                     let pname = if packing == Packing::AllInOnePdu { "one-pdu" } else { "pdu-per-pdv" };
                     for cuts in vx_kit::gen::cut_sets(len, maxcuts) {
@@ -215,8 +219,8 @@ fn build_cases(check: &Check, tss: &[TsKind], abs_marker: &str) -> Vec<Case> {
                             id: format!("frag/{mname}/{}/{}/{pname}/{cname}", ts.name, DS_NAMES[k]),
                             family: "frag",
                             mode,
-                            ts: *ts,
-                            stores: vec![Store { cmd_uid: uid.clone(), ds_uid: uid.clone(), ds: k, cuts, empty_pdv: 0, packing }],
+                            pcs: vec![(CT, *ts)],
+                            stores: vec![Store { cmd_uid: uid.clone(), ds_uid: uid.clone(), ds: k, cuts, empty_pdv: 0, packing, ctx: 0 }],
                         });
                     }
                     for (e, ename) in [(1u8, "empty-first"), (2, "empty-last")] {
@@ -224,8 +228,8 @@ fn build_cases(check: &Check, tss: &[TsKind], abs_marker: &str) -> Vec<Case> {
                             id: format!("frag/{mname}/{}/{}/{pname}/{ename}", ts.name, DS_NAMES[k]),
                             family: "frag",
                             mode,
-                            ts: *ts,
-                            stores: vec![Store { cmd_uid: uid.clone(), ds_uid: uid.clone(), ds: k, cuts: vec![], empty_pdv: e, packing }],
+                            pcs: vec![(CT, *ts)],
+                            stores: vec![Store { cmd_uid: uid.clone(), ds_uid: uid.clone(), ds: k, cuts: vec![], empty_pdv: e, packing, ctx: 0 }],
                         });
                     }
                 }
@@ -256,15 +260,76 @@ fn build_cases(check: &Check, tss: &[TsKind], abs_marker: &str) -> Vec<Case> {
                     .map(|(n, k)| {
                         let uid = format!("1.2.3.{n}.{k}");
                         // the middle of the data set is a cut so that non-last PDVs are buffered too
-                        let len = wire_bytes(ts, &data_set(*k, uid.as_bytes(), ts)).len();
-                        Store { cmd_uid: uid.clone(), ds_uid: uid, ds: *k, cuts: if n % 2 == 1 { vec![len / 2] } else { vec![] }, empty_pdv: 0, packing: Packing::OnePduPerPdv }
+                        let len = wire_bytes(ts, &data_set(*k, CT, uid.as_bytes(), ts)).len();
+                        Store { cmd_uid: uid.clone(), ds_uid: uid, ds: *k, cuts: if n % 2 == 1 { vec![len / 2] } else { vec![] }, empty_pdv: 0, packing: Packing::OnePduPerPdv, ctx: 0 }
                     })
                     .collect();
                 cases.push(Case {
                     id: format!("seq/{mname}/{}/{}", ts.name, s.iter().map(|k| k.to_string()).collect::<Vec<_>>().join("-")),
                     family: "seq",
                     mode,
-                    ts: *ts,
+                    pcs: vec![(CT, *ts)],
+                    stores,
+                });
+            }
+        }
+    }
+    // family ctx: associations with 2-3 presentation contexts (one transfer syntax each), every order of the
+    // proposals; stores on every sequence of <= 2 (thorough 3) of the accepted contexts
+    let maxlen = if quick { 2 } else { 3 };
+    let mut proposals: Vec<Vec<(&'static str, TsKind)>> = vec![];
+    for a in tss {
+        for b in tss {
+            if a != b {
+                proposals.push(vec![(CT, *a), (CT, *b)]);
+                for c in tss {
+                    if c != a && c != b {
+                        proposals.push(vec![(CT, *a), (CT, *b), (CT, *c)]);
+                    }
+                }
+            }
+            // two storage SOP classes, each with one syntax (equal or different), both orders
+            proposals.push(vec![(CT, *a), (MR, *b)]);
+            proposals.push(vec![(MR, *a), (CT, *b)]);
+        }
+    }
+    for (mode, mname) in MODES.iter().enumerate() {
+        for pcs in &proposals {
+            let n = pcs.len();
+            let mut seqs: Vec<Vec<usize>> = vec![vec![]];
+            let mut all: Vec<Vec<usize>> = vec![];
+            for _ in 0..maxlen {
+                let mut next = vec![];
+                for s in &seqs {
+                    for k in 0..n {
+                        let mut t = s.clone();
+                        t.push(k);
+                        next.push(t);
+                    }
+                }
+                all.extend(next.iter().cloned());
+                seqs = next;
+            }
+            for sq in all {
+                let stores: Vec<Store> = sq
+                    .iter()
+                    .enumerate()
+                    .map(|(pos, k)| {
+                        let uid = format!("1.2.3.{pos}.{k}");
+                        let ds = (pos * 2 + k + 1) % 6;
+                        let len = wire_bytes(&pcs[*k].1, &data_set(ds, pcs[*k].0, uid.as_bytes(), &pcs[*k].1)).len();
+                        Store { cmd_uid: uid.clone(), ds_uid: uid, ds, cuts: if pos % 2 == 1 { vec![len / 2] } else { vec![] }, empty_pdv: 0, packing: Packing::OnePduPerPdv, ctx: *k }
+                    })
+                    .collect();
+                cases.push(Case {
+                    id: format!(
+                        "ctx/{mname}/{}/on-{}",
+                        pcs.iter().map(|(a, t)| format!("{}:{}", if *a == CT { "CT" } else { "MR" }, t.name)).collect::<Vec<_>>().join("+"),
+                        sq.iter().map(|k| k.to_string()).collect::<Vec<_>>().join("-")
+                    ),
+                    family: "ctx",
+                    mode,
+                    pcs: pcs.clone(),
                     stores,
                 });
             }
@@ -417,11 +482,11 @@ enum Answer {
     Protocol(String),
 }
 
-fn send_store(c: &mut Conn, st: &Store, ts: &TsKind, pc: u8, msg_id: u16, real_uid: &dyn Fn(&str) -> String) -> std::io::Result<Vec<u8>> {
+fn send_store(c: &mut Conn, st: &Store, class: &str, ts: &TsKind, pc: u8, msg_id: u16, real_uid: &dyn Fn(&str) -> String) -> std::io::Result<Vec<u8>> {
     let cmd_uid = real_uid(&st.cmd_uid);
     let ds_uid = real_uid(&st.ds_uid);
-    let data = wire_bytes(ts, &data_set(st.ds, ds_uid.as_bytes(), ts));
-    let mut pdvs = vec![Pdv { pc, command: true, last: true, data: dimse::c_store_rq(CT, cmd_uid.as_bytes(), msg_id) }];
+    let data = wire_bytes(ts, &data_set(st.ds, class, ds_uid.as_bytes(), ts));
+    let mut pdvs = vec![Pdv { pc, command: true, last: true, data: dimse::c_store_rq(class, cmd_uid.as_bytes(), msg_id) }];
     let segs = vx_kit::gen::cuts_to_segments(data.len(), &st.cuts);
     let mut pos = 0;
     if st.empty_pdv == 1 {
@@ -542,7 +607,8 @@ fn run_case(l: &mut Attempt, check: &Check, case: &Case, ctx: &mut Ctx) {
     let first = &case.stores[0];
     let class = |kind: &str, st: &Store| {
         json!({
-            "family": case.family, "mode": MODES[case.mode], "ts": case.ts.name, "kind": kind,
+            "family": case.family, "mode": MODES[case.mode], "ts": case.pcs[st.ctx].1.name, "kind": kind,
+            "contexts": case.pcs.len(), "context_position": st.ctx, "sop_classes": if case.pcs.iter().any(|p| p.0 != case.pcs[0].0) { 2 } else { 1 },
             "uid_shape": if st.cmd_uid == "\u{1}ABS" { "absolute" } else { uid_shape(&st.cmd_uid) },
             "uid_in_data_set": if st.cmd_uid == st.ds_uid { "same" } else { "other" },
             "data_set": DS_NAMES[st.ds], "pdvs": st.cuts.len() + 1 + (st.empty_pdv != 0) as usize,
@@ -576,10 +642,15 @@ fn run_case(l: &mut Attempt, check: &Check, case: &Case, ctx: &mut Ctx) {
         }
     };
     let established = conn
-        .send(&assoc_rq(vec![PcRq { id: 1, abs: CT.into(), ts: vec![case.ts.uid.into()] }]))
+        .send(&assoc_rq(case.pcs.iter().enumerate().map(|(i, (abs, t))| PcRq { id: (2 * i + 1) as u8, abs: (*abs).into(), ts: vec![t.uid.into()] }).collect()))
         .map_err(|e| e.to_string())
         .and_then(|_| match conn.recv() {
-            Ok(Some(Pdu::Ac(a))) if a.pcs.len() == 1 && a.pcs[0].id == 1 && a.pcs[0].result == 0 && a.pcs[0].ts == case.ts.uid => Ok(()),
+            Ok(Some(Pdu::Ac(a)))
+                if a.pcs.len() == case.pcs.len()
+                    && case.pcs.iter().enumerate().all(|(i, (_, t))| a.pcs.iter().any(|p| p.id == (2 * i + 1) as u8 && p.result == 0 && p.ts == t.uid)) =>
+            {
+                Ok(())
+            }
             o => Err(format!("{o:?}")),
         });
     if let Err(e) = established {
@@ -596,9 +667,9 @@ fn run_case(l: &mut Attempt, check: &Check, case: &Case, ctx: &mut Ctx) {
         let msg_id = (n + 1) as u16;
         let detail = |info: Value| {
             json!({ "store_index": n, "affected_sop_instance_uid": real_uid(&st.cmd_uid), "data_set_sop_instance_uid": real_uid(&st.ds_uid),
-                    "transfer_syntax": case.ts.uid, "cuts": st.cuts, "out_dir": out.to_string_lossy(), "info": info })
+                    "transfer_syntax": case.pcs[st.ctx].1.uid, "context_id": 2 * st.ctx + 1, "proposed": case.pcs.iter().map(|(a, t)| format!("{a} / {}", t.name)).collect::<Vec<_>>(), "cuts": st.cuts, "out_dir": out.to_string_lossy(), "info": info })
         };
-        let wire = match send_store(&mut conn, st, &case.ts, 1, msg_id, &real_uid) {
+        let wire = match send_store(&mut conn, st, case.pcs[st.ctx].0, &case.pcs[st.ctx].1, (2 * st.ctx + 1) as u8, msg_id, &real_uid) {
             Ok(w) => w,
             Err(e) => {
                 l.outcome("send-failed");
@@ -629,7 +700,7 @@ fn run_case(l: &mut Attempt, check: &Check, case: &Case, ctx: &mut Ctx) {
         match &answer {
             Answer::Response { pc, cmd } => {
                 success = cmd.status == Some(0);
-                if verdict.is_none() && (*pc != 1 || cmd.field != Some(0x8001) || cmd.msg_id_responded != Some(msg_id) || cmd.group_length != Some(cmd.bytes_after_group_length as u32)) {
+                if verdict.is_none() && (*pc != (2 * st.ctx + 1) as u8 || cmd.field != Some(0x8001) || cmd.msg_id_responded != Some(msg_id) || cmd.group_length != Some(cmd.bytes_after_group_length as u32)) {
                     verdict = Some(Verdict { kind: "response-fields", info: json!({ "pc": pc, "command": format!("{cmd:?}"), "expected_message_id": msg_id }) });
                 }
             }
@@ -654,8 +725,21 @@ fn run_case(l: &mut Attempt, check: &Check, case: &Case, ctx: &mut Ctx) {
             };
             verdict = Some(Verdict { kind: "file-without-success", info: json!({ "answer": how, "changed": changed }) });
         }
+        // a request with a well-formed UID (digits and dots) on an accepted context must be stored: refusing
+        // is only tolerated as a way of dealing with UID texts that are not UIDs
+        let uid_text = real_uid(&st.cmd_uid);
+        let uid_text = uid_text.trim_end_matches('\0');
+        let well_formed = uid_text.starts_with(|c: char| c.is_ascii_digit()) && uid_text.chars().all(|c| c.is_ascii_digit() || c == '.');
+        if verdict.is_none() && !stored && !success && well_formed && !matches!(answer, Answer::Timeout | Answer::Protocol(_)) {
+            let how = match &answer {
+                Answer::Response { cmd, .. } => format!("status {:?}", cmd.status),
+                Answer::Dropped(m) => m.clone(),
+                _ => String::new(),
+            };
+            verdict = Some(Verdict { kind: "valid-store-refused", info: json!({ "answer": how }) });
+        }
         if verdict.is_none() && stored {
-            if let Err(v) = check_file(&root.join(direct[0]), &case.ts, &wire) {
+            if let Err(v) = check_file(&root.join(direct[0]), &case.pcs[st.ctx].1, &wire) {
                 verdict = Some(v);
             }
         }
@@ -730,12 +814,14 @@ fn main() {
         "families: uid = SOP Instance UID words (all concatenations of <= 2 (thorough 3) tokens of {\"1.2.3\",\"x\",\".\",\"..\",\"/\",\"\\\\\",\"\",\"x/y\",\"1.2.3\\0\"}, plus an absolute path into the scratch area) \
          x {UID in the data set equal / different} x accepted transfer syntaxes x {sync, --non-blocking}; \
          frag = data sets (quick 1, thorough 6) x every set of <= 1 (thorough 2) cut positions of the data set bytes into PDVs, plus an empty first / empty last PDV, x {one PDU per PDV, all PDVs in one PDU} x ts x mode; \
-         seq = every ordered pair (thorough: and triple) of the 6 data sets stored on one association x ts x mode. \
+         seq = every ordered pair (thorough: and triple) of the 6 data sets stored on one association x ts x mode; \
+         ctx = associations proposing 2 or 3 presentation contexts with ids 1,3,5 (one abstract syntax with every ordered selection of different accepted transfer syntaxes; CT and MR Image Storage with every pair of syntaxes in both orders), \
+         stores sent on every sequence of <= 2 (thorough 3) context choices (repetition allowed), x mode; the oracle uses the transfer syntax accepted for the context id the PDVs carry. \
          One association per case against a long-running tool process; the whole scratch tree is snapshotted before and after every store. \
          Distinct by case id; non-trivial = the association was accepted and the C-STORE request sent",
     );
     check.assume("vx-ref data set codec/strict parser and the PDU/DIMSE codec of vx-tools (written from PS3.5/3.7/3.8) are the trusted base; Path::join is used only to locate and clean up files an unsanitised name would create outside the scratch tree");
-    check.assume("a store the tool refuses (failure status, or association dropped) satisfies the statement as long as no file appears; success status must coincide with exactly one new file directly inside the output directory");
+    check.assume("a refused store of a well-formed UID (digits and dots) is a failure; for other UID texts a store the tool refuses (failure status, or association dropped) satisfies the statement as long as no file appears; success status must coincide with exactly one new file directly inside the output directory");
 
     let exe = vx_tools::tool_path("dicom-storescp");
     let scratch = check.scratch_dir();
